@@ -4,14 +4,16 @@
 # against the scratch copy (VERIF_REPO), then removes the scratch copy.
 set -u
 PATCH="$(readlink -f "$1")"; shift
+V="$(cd "$(dirname "$0")/.." && pwd)"
+R="${VERIF_REPO:-/repo}"
 S="$(mktemp -d /tmp/pyc_mut.XXXXXX)"
-rsync -a --exclude .git --exclude '*.egg-info' /repo/ "$S/"
+rsync -a --exclude .git --exclude '*.egg-info' "$R/" "$S/"
 cd "$S" && patch -p1 -s < "$PATCH" || { echo "PATCH-FAILED"; rm -rf "$S"; exit 2; }
-echo "--- tests:"; /verif/tools/runtests.sh "$S" | tail -1
-cd /verif
+echo "--- tests:"; "$V/tools/runtests.sh" "$S" | tail -1
+cd "$V"
 for P in "$@"; do
   echo "--- check $P:"; VERIF_REPO="$S" ./check "$P" quick | tail -4; echo "exit=$?"
 done
 rm -rf "$S"
 # restore generated tables for /repo
-env -u PYCAPTION_DEFAULT_LANG PYTHONPATH=/repo PYTHONHASHSEED=0 /venv/bin/python /verif/gen/gen_tables.py /verif/coq/model/Generated.v >/dev/null
+env -u PYCAPTION_DEFAULT_LANG PYTHONPATH="$R" PYTHONHASHSEED=0 /venv/bin/python "$V/gen/gen_tables.py" "$V/coq/model/Generated.v" >/dev/null
